@@ -108,9 +108,10 @@ bool Generation::wasUpdated()
 			return true;
 		}
 
-		if (onDisk != currentValue)
+		if (onDisk != currentValue || externalUpdate)
 		{
 			currentValue = onDisk;
+			externalUpdate = false;
 			return true;
 		}
 
@@ -185,6 +186,13 @@ void Generation::commit()
 		bOK = bOK && genFile.readULong(onDisk);
 		bOK = bOK && genFile.seek(0L);
 
+		// Another process changed the token since we last looked; adopting its
+		// value below must not hide that change from the next wasUpdated()
+		if (bOK && onDisk != currentValue)
+		{
+			externalUpdate = true;
+		}
+
 		if (pendingUpdate)
 		{
 			onDisk++;
@@ -247,6 +255,7 @@ Generation::Generation(const std::string inPath, int inUmask, bool inIsToken)
 	umask = inUmask;
 	isToken = inIsToken;
 	pendingUpdate = false;
+	externalUpdate = false;
 	currentValue = 0;
 	genMutex = NULL;
 
